@@ -354,6 +354,8 @@ def map_key_scan(chk, program):
             key = None; how = None
             if isinstance(par, ast.Subscript) and par.value is node:
                 key = par.slice; how = {'Load': 'read', 'Store': 'write', 'Del': 'delete'}[type(par.ctx).__name__]
+            elif isinstance(par, ast.Compare) and len(par.ops) == 1 and isinstance(par.ops[0], (ast.In, ast.NotIn)) and par.comparators[0] is node:
+                key = par.left; how = 'membership'
             elif isinstance(par, ast.Attribute) and par.value is node and isinstance(getattr(par, '_parent', None), ast.Call) and par._parent.func is par:
                 how = par.attr
                 if par.attr in ('get', 'pop', 'setdefault') and par._parent.args:
@@ -466,9 +468,9 @@ def map_rules(chk, program):
     # table: which identity is attached to the claim message itself, per state of the map
     if adds:
         sf = F.split_facts(program); cf = F.ctor_facts(program)
-        attrs = F.runtime_attrs(program, sf, cf, consts, [], [])
         ident_term = adds[0][2][2][4] if len(adds[0][2][2]) > 4 else None
-        for old_name, tag in ((None, 'no-entry'), (12345, 'same-NAME'), (999, 'other-NAME')):
+        for (excl, old_name, tag) in [(e_, o_, t_ + ('' if not e_ else '/claim-filtered')) for e_ in ([], [consts['ISO_CLAIM_PGN']]) for o_, t_ in ((None, 'no-entry'), (12345, 'same-NAME'), (999, 'other-NAME'))]:
+            attrs = F.runtime_attrs(program, sf, cf, consts, excl, [])
             iso = None if old_name is None else F.Stub(name=old_name, manufacturer_code=None)
             model, msg = F.make_model(attrs, consts, consts['ISO_CLAIM_PGN'], consts['ISO_CLAIM_PGN_ID'], iso=iso)
             try:
